@@ -10,7 +10,7 @@ ADD=bot/zz_verif_c20.go=checks/c20/ovl/bot_verif.go
 mkdir -p "$work/ctl" "$work/free"
 # the listed files must be rewritable (a stale list is an error); every other file of these packages
 # that starts to use sync or go statements is picked up automatically
-RWDIRS=net,net/queue,net/packet,net/CFB8,nbt,nbt/dynbt,level,server,bot
+RWDIRS=net,net/queue,net/packet,net/CFB8,nbt,nbt/dynbt,level,server,bot,chat
 go run ./tools/overlaygen -work "$work/ctl" -mode controlled -rewrite "$RW" -rewrite-dirs "$RWDIRS" -add "$ADD" || { echo "HARNESS-ERROR: overlay generation failed" >&2; exit 2; }
 go run ./tools/overlaygen -work "$work/free" -mode free -add "$ADD" || { echo "HARNESS-ERROR: overlay generation failed" >&2; exit 2; }
 go build $VERIF_MODFLAG -tags verif,verifctl -overlay "$work/ctl/overlay.json" -o "$work/h_ctl" ./checks/c20 2> "$work/build.log" || { cat "$work/build.log" >&2; echo "HARNESS-ERROR: build failed" >&2; exit 2; }
